@@ -61,7 +61,7 @@ def run(chk):
         open(can, "w").write(json.dumps(v) + "\n")
         p = vlib.vh(["lex-replay"], stdin_path=can)
         if b'"bad":true' not in p.stdout:
-            raise vlib.ToolError("canary (flipped verdict) not rejected by the comparator")
+            chk.canary_failed.append("canary (flipped verdict) not rejected by the comparator")
         os.remove(cases)
     chk.cov["traces_validated_against_impl"] += total_cases
 
@@ -99,7 +99,7 @@ def run(chk):
                       on_json=lambda v: result2.append(v), timeout=600, xmx="2g")
         res2 = [v for v in result2 if v and v[0] == "RESULT"]
         if not res2 or 2 not in res2[0][2]:
-            raise vlib.ToolError("canary (corrupted item length) accepted by Trace_Lex")
+            chk.canary_failed.append("canary (corrupted item length) accepted by Trace_Lex")
 
     for row in shortest(bad_rows, 8):
         chk.violation({"class": "lexer-disagrees-with-grammar", "text": row["text"]},
